@@ -79,3 +79,10 @@ contract(A, '_spikes_per_cluster', props=['C07'], params={'spike_clusters': 'arr
              ('groups-hold-only-spikes-carrying-that-id', 'all(all(any(spike_clusters[s] == %s[k] and %s[k][j] == %s for s in range(len(spike_clusters))) for j in range(len(%s[k]))) for k in range(len(%s)))' % (_K, _V, _SID('s'), _V, _K)),
              ('every-spike-is-in-the-group-of-its-id', 'all(any(%s[k] == spike_clusters[s] and any(%s[k][j] == %s for j in range(len(%s[k]))) for k in range(len(%s))) for s in range(len(spike_clusters)))' % (_K, _V, _SID('s'), _V, _K)),
              ('each-group-is-increasing', 'all(all(%s[k][i] < %s[k][j] for i in range(len(%s[k])) for j in range(i + 1, len(%s[k]))) for k in range(len(%s)))' % (_V, _V, _V, _V, _K))])
+
+# ---- _flatten_per_cluster: "selecting ... equals the sorted union of their groups" ---------------------------------------------------------
+contract(A, '_flatten_per_cluster', props=['C07', 'C17'], params={'per_cluster': 'assoc[int]'}, result='arr[int]',
+    requires=[('at-least-one-group', 'len(dkeys(per_cluster)) >= 1')],      # np.concatenate of an empty list raises (callers never pass an empty dict)
+    ensures=[('sorted-without-repetition', 'all(result[a] < result[b] for a in range(len(result)) for b in range(a + 1, len(result)))'),
+             ('only-members-of-a-group', 'all(any(any(dvals(per_cluster)[k][j] == result[i] for j in range(len(dvals(per_cluster)[k]))) for k in range(len(dvals(per_cluster)))) for i in range(len(result)))'),
+             ('every-member-of-every-group', 'all(all(any(result[i] == dvals(per_cluster)[k][j] for i in range(len(result))) for j in range(len(dvals(per_cluster)[k]))) for k in range(len(dvals(per_cluster))))')])
